@@ -176,9 +176,12 @@ func init() {
 				}
 				for _, b := range []string{drv.BBolt, drv.Badger} {
 					eng.SchedExplore(&eng.SchedConfig{Scenario: sc, Backend: b, Mode: eng.ModeReduced, Bound: -1, Budget: budget(tier, 60*time.Second, 10*time.Minute), Own: tags}, run)
+					large := strings.HasPrefix(sc.Name, "S11") || strings.HasPrefix(sc.Name, "S12") || strings.HasPrefix(sc.Name, "S13")
 					if tier == "thorough" {
-						eng.SchedExplore(&eng.SchedConfig{Scenario: sc, Backend: b, Mode: eng.ModeTxPoints, Bound: 4, Budget: 5 * time.Minute, Own: tags}, run)
-						eng.SchedExplore(&eng.SchedConfig{Scenario: sc, Backend: b, Mode: eng.ModeEveryCall, Bound: 3, Budget: 5 * time.Minute, Own: tags}, run)
+						eng.SchedExplore(&eng.SchedConfig{Scenario: sc, Backend: b, Mode: eng.ModeTxPoints, Bound: 3, Budget: 2 * time.Minute, Own: tags}, run)
+						if !large {
+							eng.SchedExplore(&eng.SchedConfig{Scenario: sc, Backend: b, Mode: eng.ModeEveryCall, Bound: 2, Budget: 2 * time.Minute, Own: tags}, run)
+						}
 					} else if !strings.HasPrefix(sc.Name, "S11") && !strings.HasPrefix(sc.Name, "S12") && !strings.HasPrefix(sc.Name, "S13") { // thousands of store calls per schedule: op+commit mode only in the quick tier
 						eng.SchedExplore(&eng.SchedConfig{Scenario: sc, Backend: b, Mode: eng.ModeEveryCall, Bound: 1, Budget: 60 * time.Second, Own: tags}, run)
 					}
